@@ -4,7 +4,7 @@
    both ways, SFcompare on two doubles) all decide  sval a < sval b. *)
 From Coq Require Import ZArith NArith List Bool SpecFloat Lia.
 Import ListNotations.
-Require Import Base Float Strings Builtins Interp Machine Spec Refine2 RunG.
+Require Import Base Float Strings Builtins Interp Machine Spec Refine2 RunG Eq.
 Open Scope Z_scope.
 
 (* a double as the standard's operations deliver it: mantissa below 2^53; below 2^52 only at the smallest exponent (subnormals) *)
@@ -105,6 +105,48 @@ Proof.
     exfalso; try (assert (true = true -> False) by (intros _; apply H1 in L; discriminate)); try (apply H1 in L; discriminate); try (apply H2 in G; discriminate).
 Qed.
 
+(* ㄴ on finite reals is equality of the exact values (so "equal values" in the trichotomy is the language's own equality) *)
+Definition skey (k:nkeyv) : option Z :=          (* the value * 2^1074 a key stands for *)
+  match k with KZero => Some 0 | KFin s m e => Some ((if s then Zneg m else Zpos m) * 2 ^ (e + 1074)) | _ => None end.
+Lemma key_value v : finite_real v -> skey (nkey v) = Some (sval v) /\ match nkey v with KFin _ m e => Z.odd (Zpos m) = true /\ 0 <= e + 1074 | KZero => True | _ => False end.
+Proof.
+  destruct v as [n|f| | | | | | | | | | |]; cbn [finite_real]; try contradiction.
+  - intros _. destruct n as [|p|p]; cbn [nkey]. split; [reflexivity|exact I].
+    + pose proof (pstrip_spec p) as (E & K & O). destruct (pstrip p) as [m k]. cbn [fst snd] in *. cbn [skey sval]. split; [|split; [exact O|lia]].
+      f_equal. rewrite E. rewrite Z.pow_add_r by lia. ring.
+    + pose proof (pstrip_spec p) as (E & K & O). destruct (pstrip p) as [m k]. cbn [fst snd] in *. cbn [skey sval]. split; [|split; [exact O|lia]].
+      f_equal. change (Z.neg p) with (- Z.pos p). rewrite E. change (Z.neg m) with (- Z.pos m). rewrite Z.pow_add_r by lia. ring.
+  - destruct f as [s|s| |s m e]; try contradiction. intros _. cbn [nkey skey sval]. split; [reflexivity|exact I].
+    intros (_ & Ee & _). cbn [nkey]. pose proof (pstrip_spec m) as (E & K & O). destruct (pstrip m) as [m' k]. cbn [fst snd] in *. cbn [skey sval]. split; [|split; [exact O|lia]].
+    f_equal. replace (e + k + 1074) with (k + (e + 1074)) by lia. rewrite Z.pow_add_r by lia.
+    destruct s; [change (Z.neg m) with (- Z.pos m); change (Z.neg m') with (- Z.pos m')|]; rewrite E; ring.
+Qed.
+Theorem eq_is_value_equality a b : finite_real a -> finite_real b -> (num_eq a b = true <-> sval a = sval b).
+Proof.
+  intros Fa Fb. assert (Ra : is_real a = true) by (destruct a; try contradiction; reflexivity). assert (Rb : is_real b = true) by (destruct b; try contradiction; reflexivity).
+  rewrite (num_eq_real a b Ra Rb). destruct (key_value a Fa) as (Ka & Pa). destruct (key_value b Fb) as (Kb & Pb). split.
+  - intros H. apply nkey_eqb_eq in H. rewrite H in Ka. rewrite Ka in Kb. inversion Kb. reflexivity.
+  - intros E. rewrite <- E in Kb. destruct (nkey a) as [|sa ma ea| | |], (nkey b) as [|sb mb eb| | |]; try contradiction; cbn [skey] in Ka, Kb; try reflexivity.
+    + exfalso. inversion Ka as [Ea]. inversion Kb as [Eb]. destruct Pb as (_ & Jb). assert (0 < 2 ^ (eb + 1074)) by (apply Z.pow_pos_nonneg; lia). destruct sb; nia.
+    + exfalso. inversion Ka as [Ea]. inversion Kb as [Eb]. destruct Pa as (_ & Ja). assert (0 < 2 ^ (ea + 1074)) by (apply Z.pow_pos_nonneg; lia). destruct sa; nia.
+    + destruct Pa as (Oa & Ja), Pb as (Ob & Jb). inversion Ka as [Ea]. inversion Kb as [Eb]. rewrite <- Ea in Eb.
+      assert (Ha : 0 < 2 ^ (ea + 1074)) by (apply Z.pow_pos_nonneg; lia). assert (Hb : 0 < 2 ^ (eb + 1074)) by (apply Z.pow_pos_nonneg; lia).
+      assert (S : sa = sb) by (destruct sa, sb; auto; exfalso; nia). subst sb.
+      assert (M : Z.pos mb * 2 ^ (eb + 1074) = Z.pos ma * 2 ^ (ea + 1074)) by (destruct sa; [change (Z.neg mb) with (- Z.pos mb) in Eb; change (Z.neg ma) with (- Z.pos ma) in Eb; lia|exact Eb]).
+      destruct (odd_pow2_unique _ _ _ _ Ob Oa Jb Ja M) as (M1 & M2). inversion M1; subst. assert (eb = ea) by lia. subst.
+      cbn [nkey_eqb]. rewrite Bool.eqb_reflx, Pos.eqb_refl, Z.eqb_refl. reflexivity.
+Qed.
+(* ... so for finite reals exactly one of  a ㅈ b,  b ㅈ a,  a ㄴ b  holds *)
+Corollary lt_eq_trichotomy a b : finite_real a -> finite_real b ->
+  (lt_val a b = true /\ lt_val b a = false /\ num_eq a b = false) \/ (lt_val a b = false /\ lt_val b a = true /\ num_eq a b = false) \/ (lt_val a b = false /\ lt_val b a = false /\ num_eq a b = true).
+Proof.
+  intros Fa Fb. pose proof (eq_is_value_equality a b Fa Fb) as Q.
+  destruct (lt_trichotomy a b Fa Fb) as [(A & B & C)|[(A & B & C)|(A & B & C)]].
+  - left. repeat split; auto. destruct (num_eq a b); auto. exfalso. apply C. apply Q. reflexivity.
+  - right; left. repeat split; auto. destruct (num_eq a b); auto. exfalso. apply C. apply Q. reflexivity.
+  - right; right. repeat split; auto. apply Q. exact C.
+Qed.
+
 (* the built-in on evaluated arguments *)
 Theorem bi_lt_is_lt_val (rec:list positive -> heap -> world -> task -> out) sp a b ip h w : finite_real a -> finite_real b ->
   runG rec value ip h w (bi_lt sp [a; b]) = DoneG h w (inl (VBool (lt_val a b))) 0.
@@ -115,4 +157,4 @@ Example order_met : finite_real (VFloat (S754_finite false 4503599627370496 (-52
   /\ lt_val (VFloat (S754_finite false 4503599627370496 (-52))) (VInt 2) = true /\ lt_val (VInt (2 ^ 53 + 1)) (VFloat (S754_finite false 4503599627370496 1)) = false
   /\ lt_val (VFloat (S754_finite false 4503599627370496 1)) (VInt (2 ^ 53 + 1)) = true.
 Proof. repeat split; cbn; try lia; try (right; lia); reflexivity. Qed.
-Print Assumptions lt_is_value_order. Print Assumptions lt_irreflexive. Print Assumptions lt_transitive. Print Assumptions lt_trichotomy. Print Assumptions bi_lt_is_lt_val.
+Print Assumptions lt_is_value_order. Print Assumptions lt_irreflexive. Print Assumptions lt_transitive. Print Assumptions lt_trichotomy. Print Assumptions bi_lt_is_lt_val. Print Assumptions eq_is_value_equality. Print Assumptions lt_eq_trichotomy.
